@@ -190,3 +190,25 @@ check('C04', 'other',
       "A-deterministic stubs for the relational scaling. Bounded tolerances: H/S 1e-6, V 2e-6, T 1e-7 K, P 1 Pa, fugacity 1e-5. Known finding F-C04-5 (PS flash on benzene "
       "mixtures: quantised dependency data) printed as KNOWN-FINDING. 4 defects repaired.",
       "symbolic execution of the real flash bookkeeping and Rachford-Rice algebra with z3 discharge + bounded run-time contracts on the real solvers", "DESIGN.md 4/C04")
+check('C14', 'proof',
+      "Contracts on the real Stream/MultiStream property machinery (_get_property of both classes, reset_cache, all 17 derived properties) and on 40 public mutators and 5 "
+      "data-sharing constructors (proxy, link_with, flow_proxy, phase views, from_streams): every property read in every enumerated history (prime / move / read, one mutator, "
+      "shared handles, all interleavings to depth 3 (quick) / 4 (thorough) and restricted alphabets to depth 4 / 6) is proved by z3 equal to the value read from a freshly "
+      "created stream with the same flows, phases, T, P and package, for ALL real values of flows, T, P, mutator arguments and ALL pure-component models (uninterpreted; a "
+      "second package with different models refutes a memo surviving a package change). The frame of each read and of source-only arguments is proved as well.",
+      "A-real with log uninterpreted (entropy is never primed before a flow change); A-models, A-root. Structure bounded: 2 chemicals, <= 3 phases, history depth as stated; the "
+      "induction over histories (representation invariant Inv preserved by each step) is replaced by the observational form (move to an arbitrary symbolic state, the read is "
+      "fresh) and is argued, not mechanised. Native cross-checks are skipped when a model leaves the float range. Not covered: F_mass/F_vol/imass/ivol setters, vle/lle/sle "
+      "mutators, mix_from with energy balance and >= 2 inlets. 1 defect repaired (Stream.proxy).",
+      "deductive: sidecar contracts + VC generation by symbolic execution of the real functions with uninterpreted property models, z3 discharge, native replay", "DESIGN.md 4/C14")
+check('C15', 'other',
+      "Mode S (bounded structure, all real values): the bookkeeping of LLE.__call__ is proved modulo the optimiser contract A-opt (solve_lle_liquid_mol returns 0 <= mol_L <= mol "
+      "as a function of chemicals, normalised z and T): the use_cache decision is two-sided against the previous call (a cached answer is never for another temperature or "
+      "composition); the handed-out split is the solver's, labelled by the top-chemical mass-fraction rule; proportionality under scaling (relational); the remembered state; "
+      "reuse equals forbid from that state. The SLE rules (only the solute moves, solubility and presence bounds, pure-solute melting rule) and one-solver-per-stream are proved. "
+      "The equilibrium sentence itself (equal activities x*gamma in both liquids) and history independence with the real solvers are BOUNDED run-time contracts (mode B) on four "
+      "partially miscible families, all three solver methods, T 285-355 K, histories of 1-4 earlier calls.",
+      "Level 'other': the decisive equal-activity clause is bounded. A-real; A-opt (mode B shows it is false for 'pseudo equilibrium': F-C15-3); A-models/A-iter for SLE. "
+      "Structure <= 3 chemicals, <= 2 earlier calls in S; reuse groups require two liquids with |K - 1| > 1e-3. Known findings F-C15-2a-c (label swap on reuse), F-C15-3a-b "
+      "(pseudo-equilibrium K never updated), F-C15-4 (shgo non-convergence) printed as KNOWN-FINDING. 1 defect repaired.",
+      "symbolic execution of the real LLE/SLE bookkeeping under an optimiser contract with z3 discharge + bounded run-time contracts on the real solvers", "DESIGN.md 4/C15")
